@@ -16,7 +16,7 @@ import (
 )
 
 // C04 (Engine W, batch enumeration): every ordered selection of <= 3 swap requests out of a
-// 17-request alphabet is placed in ONE real block (each request has its own sender and, where
+// 18-request alphabet is placed in ONE real block (each request has its own sender and, where
 // stated, its own recipient so that balance deltas are attributable), alone and together with one
 // price-moving transaction before or after them; the block is followed by an empty block.
 
@@ -76,6 +76,8 @@ func c04Requests() []c04Req {
 		// types that end in the same queued request
 		{Name: "bydenom_usdc_atom_quoted_999", Sender: "r8", In: "uusdc", Out: "uatom", Amt: 1e9, Quote: 0.999},
 		{Name: "bydenom_elys_usdc_quoted_999", Sender: "r7", In: "uelys", Out: "uusdc", Amt: 1e9, Quote: 0.999},
+		// an exact-out request whose stated maximum is ZERO (stateless validation does not look at the field)
+		{Name: "out_p1_usdc_for_atom_max0", Sender: "r9", In: "uusdc", Out: "uatom", ExactOut: true, Amt: 1e6, Limit: 0},
 	}
 	rs[0].Build = in(&rs[0], rin(1, "uatom"))
 	rs[1].Build = in(&rs[1], rin(1, "uatom"))
@@ -99,6 +101,7 @@ func c04Requests() []c04Req {
 	rs[16].Build = func(w *World, r *c04Req) sdk.Msg {
 		return &ammtypes.MsgSwapByDenom{Sender: w.A(r.Sender).Addr.String(), Amount: C("uelys", r.Amt), MinAmount: C("uusdc", r.Limit), DenomIn: "uelys", DenomOut: "uusdc"}
 	}
+	rs[17].Build = out(&rs[17], rout(1, "uusdc"))
 	rs[10].Build = func(w *World, r *c04Req) sdk.Msg {
 		// exact-out by denom: Amount is the wanted OUT amount; MaxAmount (denominated in the out denom by
 		// the message's own rule) caps the input
